@@ -141,6 +141,13 @@ def nested_varying_cases():
             else:
                 outs = {"p": outer(a)[0], "q": outer(b)[0], "r": inner(a)[0]}
             out.append(B.Case({"a": a, "b": b, "c": c}, outs, False, {"nested_varying": f"{where}/{how}"}))
+    # a function applied to a value of UNKNOWN RANK: a FunctionProto carries no types, nothing is demanded of the body's argument types
+    f = to_function("Twice", "verif.nest")(lambda x: [op.add(x, x)])
+    a = B.argument(B.Tensor(np.float32, (2,)))
+    sh = B.argument(B.Tensor(np.int64, (None,)))
+    unk = op.reshape(a, sh)
+    (r,) = f(unk)
+    out.append(B.Case({"a": a, "sh": sh}, {"r": op.reshape(r, op.const(np.array([2], np.int64)))}, False, {"function_on_unknown_rank": True}))
     return out
 
 
